@@ -77,6 +77,9 @@ pub fn live_summary() -> (usize, usize) {
         None => (0, 0),
     }
 }
+pub fn take_unknown_frees() -> u64 {
+    UNKNOWN_FREE.swap(0, Ordering::Relaxed)
+}
 pub fn live_clear() {
     let mut g = LIVE.lock().unwrap();
     if let Some(m) = g.as_mut() {
@@ -95,16 +98,16 @@ fn any_string(t: &mut Tape, lang: &Lang) -> String {
         match t.below(12) {
             0 => s.push('('),
             1 => s.push(')'),
-            2 => s.push_str(t.pick(&["@a", "@b.c", "@", "#eq?", "(#match? @a \"x\")", "(#set! a b)", "!f", ".", "_", "(_)", "*", "+", "?", "[", "]", ":", "\"", "\\", ";c\n", "/", "MISSING", "ERROR"])),
+            2 => s.push_str(*t.pick(&["@a", "@b.c", "@", "#eq?", "(#match? @a \"x\")", "(#set! a b)", "!f", ".", "_", "(_)", "*", "+", "?", "[", "]", ":", "\"", "\\", ";c\n", "/", "MISSING", "ERROR"])),
             3 | 4 => {
                 if !kinds.is_empty() {
-                    s.push_str(t.pick(&kinds));
+                    s.push_str(t.pick(&kinds).as_str());
                 }
             }
             5 => s.push(' '),
             6 => s.push(t.u8() as char),
             7 => s.push_str("\u{e9}\u{0}\u{1F600}"),
-            _ => s.push_str(t.pick(&["left:", "name:", "(identifier)", "(number)", "\"(\"", "\";\""])),
+            _ => s.push_str(*t.pick(&["left:", "name:", "(identifier)", "(number)", "\"(\"", "\";\""])),
         }
     }
     s
